@@ -49,6 +49,7 @@ type FuncSpec struct {
 	BV, FP   bool
 	Requires []Clause
 	Ensures  []Clause
+	Exits    []Clause // assertions at every return, may mention local variables (current values)
 	GhostParams []QVar // logical variables: universally quantified inputs of the function's VC
 	Effects  []Clause // definitional ghost updates: assumed at call sites, not checked against the body
 	Modifies []string
@@ -67,6 +68,9 @@ type FuncSpec struct {
 	InferAll bool
 	Opaque   bool // never inline, no contract: result arbitrary (explicit)
 	Lockset  bool
+	AssumeFrame bool // the modifies clause is used by callers but not checked against the body (listed)
+	Borrows  [][2]string // results of calls to [0] must not be used after a call to [1]
+	AllocBudget *Clause // every make() in the function (and inlined callees) must stay within this size
 	Trusted  bool // bluge function whose contract is assumed at call sites; body not verified (listed)
 	Iface    bool // contract of an interface method of bluge: assumed at invoke sites
 	Decreases *Clause
@@ -263,7 +267,7 @@ func (sp *Specs) ParseSpecLines(file string, raw []string, pkgPath string, ext b
 					curF.FP = true
 				}
 			}
-		case "requires", "ensures", "invariant", "decreases", "panics_if", "effect":
+		case "requires", "ensures", "invariant", "decreases", "panics_if", "effect", "exit":
 			c, err := parseClause(rest)
 			if err != nil {
 				return errf(i, "%v", err)
@@ -285,6 +289,8 @@ func (sp *Specs) ParseSpecLines(file string, raw []string, pkgPath string, ext b
 				curF.Ensures = append(curF.Ensures, c)
 			case kw == "effect" && curF != nil:
 				curF.Effects = append(curF.Effects, c)
+			case kw == "exit" && curF != nil:
+				curF.Exits = append(curF.Exits, c)
 			case kw == "panics_if" && curF != nil:
 				curF.Panics = append(curF.Panics, c)
 			default:
@@ -310,6 +316,21 @@ func (sp *Specs) ParseSpecLines(file string, raw []string, pkgPath string, ext b
 			curF.InferAll = true
 		case "inline":
 			curF.Inline = true
+		case "alloc_budget":
+			c, err := parseClause(rest)
+			if err != nil {
+				return errf(i, "%v", err)
+			}
+			curF.AllocBudget = &c
+		case "borrow":
+			// borrow <source callee suffix> until <release callee suffix>
+			f := strings.Fields(rest)
+			if len(f) != 3 || f[1] != "until" {
+				return errf(i, "borrow SOURCE until RELEASE")
+			}
+			curF.Borrows = append(curF.Borrows, [2]string{f[0], f[2]})
+		case "assume_frame":
+			curF.AssumeFrame = true
 		case "opaque":
 			curF.Opaque = true
 		case "trusted":
